@@ -11,7 +11,10 @@ from __future__ import annotations
 from copy import deepcopy
 from typing import Any
 
+from exabgp.bgp.message.update.attribute import Attribute
+from exabgp.bgp.message.update.collection import validate_announce_nlri
 from exabgp.bgp.message.update.nlri import NLRI
+from exabgp.bgp.message.update.nlri.empty import Empty
 from exabgp.bgp.neighbor import Neighbor
 from exabgp.bgp.neighbor.capability import GracefulRestartConfig
 from exabgp.configuration.core import Error, Parser, Scope, Section
@@ -629,6 +632,12 @@ class ParseNeighbor(Section):
 
         # check we are not trying to announce routes without the right MP announcement
         for route in neighbor.routes:
+            # what the encoder refuses (no next-hop, no label, no route distinguisher) is refused here: the
+            # API does so before it answers, and an UPDATE which cannot be generated stops the peer loop
+            if not isinstance(route.nlri, Empty) and Attribute.CODE.INTERNAL_WITHDRAW not in route.attributes:
+                announce_error = validate_announce_nlri(route.nlri, route.nexthop)
+                if announce_error:
+                    return self.error.set(announce_error)
             family = route.nlri.family().afi_safi()
             if family not in families and family != (AFI.ipv4, SAFI.unicast):
                 return self.error.set(
